@@ -3,6 +3,8 @@
 package gorums
 
 import (
+	spb "google.golang.org/genproto/googleapis/rpc/status"
+	"google.golang.org/grpc/codes"
 	"google.golang.org/protobuf/reflect/protoreflect"
 )
 
@@ -141,29 +143,43 @@ func VerifC05Late() {
 	vQuiescent() // A's request is on the wire, the peer is silent
 	xa := p.take()
 	vAssert(xa != nil, "C06.request-not-delivered")
-	a.cancel()
-	vQuiescent()
-	vAssert(a.issued && a.returned && a.err != nil, "C08.result-not-available-after-context-end")
+	firstFails := vChoice("first-ends", 2) == 1
+	if firstFails {
+		// variant: A's handler fails - the reply carries an error status with text and a
+		// detail; A ends with that error. Nothing of it may stick to the node's later replies.
+		vReach("first-call-handler-error")
+		st := &spb.Status{Code: int32(codes.NotFound), Message: "verif: no such key"}
+		vAssert(p.reply(xa, nil, st), "harness.inbox-full")
+		vQuiescent()
+		vAssert(a.issued && a.returned && a.err != nil, "C07.handler-error-not-reported")
+	} else {
+		a.cancel()
+		vQuiescent()
+		vAssert(a.issued && a.returned && a.err != nil, "C08.result-not-available-after-context-end")
+	}
 	vAssert(len(a.seen) == 0, "C05.reply-nobody-sent")
 	b := fsNewCall(kb, 2, 1)
 	go b.run(w, w.cfg)
 	vQuiescent() // B's request is on the wire
 	xb := p.take()
 	vAssert(xb != nil, "C06.request-not-delivered")
-	// the late reply to A arrives while B waits
-	late := vStamp(p, xa, 0)
-	vAssert(p.reply(xa, late, nil), "harness.inbox-full")
-	vFreezeEnv()
-	vQuiescent()
-	vReach("late-reply-while-another-call-waits")
-	vAssert(len(b.seen) == 0, "C05.late-reply-observed-by-another-call|C01.reply-of-another-request-in-the-reply-set|C02.outcome-from-a-reply-no-targeted-node-sent")
-	vAssert(!b.returned, "C05.late-reply-observed-by-another-call|C02.returned-before-any-node-answered")
+	if !firstFails {
+		// the late reply to A arrives while B waits
+		late := vStamp(p, xa, 0)
+		vAssert(p.reply(xa, late, nil), "harness.inbox-full")
+		vFreezeEnv()
+		vQuiescent()
+		vReach("late-reply-while-another-call-waits")
+		vAssert(len(b.seen) == 0, "C05.late-reply-observed-by-another-call|C01.reply-of-another-request-in-the-reply-set|C02.outcome-from-a-reply-no-targeted-node-sent")
+		vAssert(!b.returned, "C05.late-reply-observed-by-another-call|C02.returned-before-any-node-answered")
+	}
 	// now B's own reply
 	own := vStamp(p, xb, 1)
 	vAssert(p.reply(xb, own, nil), "harness.inbox-full")
+	vFreezeEnv()
 	vQuiescent()
 	vAssert(b.issued && b.returned, "C09.later-call-not-answered")
-	vAssert(b.err == nil, "C05.own-reply-lost|C02.error-although-quorum")
+	vAssert(b.err == nil, "C05.own-reply-lost-or-error-of-another-call-observed|C02.error-although-quorum|C07.successful-reply-reported-as-node-error|C13.status-of-an-earlier-reply-reaches-the-caller")
 	vAssert(len(b.seen) == 1 && b.seen[w.nodes[0].id] == protoreflect.ProtoMessage(own), "C05.reply-not-genuine|C01.reply-of-another-request-in-the-reply-set")
 	vAssert(w.routersLeft() == 0, "C18.routing-entry-left")
 	vReach("second-call-answered")
